@@ -1,5 +1,14 @@
 import PkgProofs.Props.Src.SSetMember
 import PkgProofs.Props.C05
+/-!
+# Translated source of `SpecifierSet.__init__`, `.__and__`, `.__eq__` = the model
+(`SSet.ofSpecs`, `SSet.ofString`, `SSet.SpecSet.and`, `SSet.SpecSet.eq`)
+
+The set primitives of the run-time (`PySet.dedupHM`, `PyRx.dedupM`, `PySet.subsetM`) with the translated
+`Specifier.__hash__` / `Specifier.__eq__` as closures are the model's `SSet.insert` / `SSet.union` / `SSet.hasKey`; the
+three methods then normalise with `simp`.  Every set lemma is given for the closure as the translator writes it (`pure`)
+and for the form `simp` rewrites it to (`Except.ok`); the `simp` calls list both, so one of them is always unused.
+-/
 set_option linter.unusedSimpArgs false
 namespace Src
 open PyRt Py V S
@@ -201,5 +210,48 @@ theorem SpecifierSet.__and___str (a : SpecSet) (s : Str) :
     have hm := SpecifierSet.__and___eq_model a b
     simp [Gen.PySrc.SpecifierSet.__and__, isinstance, hi, Except.map] at hm ⊢
     exact hm
+
+/-! ## `SpecifierSet.__eq__` -/
+
+/-- `a._specs == b._specs` on frozensets of members -/
+theorem set_eq_ofSet (la lb : List Member) :
+    PySet.set_eq eqf (ofSet la) (ofSet lb) =
+      .ok (.bool (la.length == lb.length && la.all fun m => SSet.hasKey lb (key m.1))) := by
+  simp only [PySet.set_eq, setItems_ofSet, subsetM_member, List.length_map]
+  by_cases h : la.length = lb.length <;> simp [h]
+theorem set_eq_ofSet' (la lb : List Member) :
+    PySet.set_eq eqf' (ofSet la) (ofSet lb) =
+      .ok (.bool (la.length == lb.length && la.all fun m => SSet.hasKey lb (key m.1))) := set_eq_ofSet la lb
+
+theorem SpecifierSet.__eq___eq_model (a b : SpecSet) :
+    Gen.PySrc.SpecifierSet.__eq__ (ofSSet a) (ofSSet b) = .ok (.bool (a.eq b)) := by
+  simp [Gen.PySrc.SpecifierSet.__eq__, isinstance, set_eq_ofSet, set_eq_ofSet', SpecSet.eq]
+
+theorem SpecifierSet.__eq___str (a : SpecSet) (s : Str) :
+    Gen.PySrc.SpecifierSet.__eq__ (ofSSet a) (.str s) =
+      (SSet.ofString s none).map (fun b => PyVal.bool (a.eq b)) := by
+  have hi : Gen.PySrc.SpecifierSet.__init__ (.obj "SpecifierSet" []) (.str s) .none =
+      (SSet.ofString s none).map ofSSet := SpecifierSet.__init___str s none
+  cases hs : SSet.ofString s none with
+  | error e =>
+    rw [hs] at hi
+    simp [Gen.PySrc.SpecifierSet.__eq__, isinstance, hi, Except.map]
+  | ok b =>
+    rw [hs] at hi
+    simp [Gen.PySrc.SpecifierSet.__eq__, isinstance, hi, Except.map, set_eq_ofSet, set_eq_ofSet', SpecSet.eq]
+
+theorem SpecifierSet.__eq___spec (a : SpecSet) (m : Member) :
+    Gen.PySrc.SpecifierSet.__eq__ (ofSSet a) (ofMember m) =
+      (SSet.ofString m.1.str none).map (fun b => PyVal.bool (a.eq b)) := by
+  have hi : Gen.PySrc.SpecifierSet.__init__ (.obj "SpecifierSet" []) (.str m.1.str) .none =
+      (SSet.ofString m.1.str none).map ofSSet := SpecifierSet.__init___str m.1.str none
+  have hstr : Gen.PySrc.Specifier.__str__ (ofMember m) = .ok (.str m.1.str) := Specifier.__str___eq_model m.1 m.2
+  cases hs : SSet.ofString m.1.str none with
+  | error e =>
+    rw [hs] at hi
+    simp [Gen.PySrc.SpecifierSet.__eq__, isinstance, hi, hstr, Except.map]
+  | ok b =>
+    rw [hs] at hi
+    simp [Gen.PySrc.SpecifierSet.__eq__, isinstance, hi, hstr, Except.map, set_eq_ofSet, set_eq_ofSet', SpecSet.eq]
 
 end Src
